@@ -38,6 +38,8 @@ func checkC14(ctx *Ctx, r *Report) {
 	c14GoConverterBuffer(ctx, r)
 	c14SixthRound(ctx, r)
 	c14SeventhRound(ctx, r)
+	c14PathKeysUnambiguous(ctx, r)
+	c14EighthRound(ctx, r)
 	c02GoRuntimeDefines(ctx, r)
 }
 
@@ -263,7 +265,12 @@ func c14Generator(ctx *Ctx, r *Report, p *packages.Package) {
 				}
 			}
 			ks := exprString(key)
-			okKey := strings.HasSuffix(ks, ".Path.String()") && !strings.Contains(ks, "Envelope") && !strings.Contains(ks, "assignmentKey")
+			// the path of the list, as a string or through a helper that takes the path alone (`pathKey(x.Path)`)
+			pathAlone := strings.HasSuffix(ks, ".Path.String()")
+			if c, ok := ast.Unparen(key).(*ast.CallExpr); ok && len(c.Args) == 1 && strings.HasSuffix(exprString(c.Args[0]), ".Path") {
+				pathAlone = true
+			}
+			okKey := pathAlone && !strings.Contains(ks, "Envelope") && !strings.Contains(ks, "assignmentKey")
 			r.Check(okKey, "skeleton/list-grouping-key", "languages.ConverterGenerator.convertOption groups list options", ix.Pos(), "grouped by the list's path alone",
 				"the options appending union branches to a list are grouped by `"+ks+"`, not by the list's path alone: each branch gets its own loop over the list and the converted calls come out grouped by branch — the rebuilt list is a permutation of the original")
 			return true
@@ -1623,4 +1630,168 @@ func c14SeventhRound(ctx *Ctx, r *Report) {
 	}
 	r.Count("hunted clauses of the converter (7th round)", n)
 	r.Floor("hunted clauses of the converter (7th round)", 4)
+}
+
+// c14PathKeysUnambiguous: Path.String() joins the identifiers of a path with a dot, and a field can be called `a.b`: the
+// sets the converter generator keeps per path (generated, initialised, grouped list options) are not keyed by that
+// string — `Outer: {"a.b": string, a: {b: string}}` made one key of two paths and dropped an option.
+func c14PathKeysUnambiguous(ctx *Ctx, r *Report) {
+	p := ctx.Pkg("internal/languages")
+	if p == nil {
+		r.Undecided("anchor lost: internal/languages")
+		return
+	}
+	info := p.TypesInfo
+	sites, bad := 0, 0
+	var first token.Pos
+	for _, f := range p.Syntax {
+		if !strings.HasSuffix(ctx.Fset.Position(f.Pos()).Filename, "languages/converter.go") {
+			continue
+		}
+		for _, d := range f.Decls {
+			fd, ok := d.(*ast.FuncDecl)
+			if !ok || fd.Body == nil {
+				continue
+			}
+			defs := map[types.Object]ast.Expr{}
+			ast.Inspect(fd.Body, func(n ast.Node) bool {
+				if as, ok := n.(*ast.AssignStmt); ok && len(as.Lhs) == len(as.Rhs) {
+					for i, l := range as.Lhs {
+						if id, ok := l.(*ast.Ident); ok {
+							if o := objOf(info, id); o != nil {
+								if _, seen := defs[o]; !seen {
+									defs[o] = as.Rhs[i]
+								}
+							}
+						}
+					}
+				}
+				return true
+			})
+			joined := func(e ast.Expr) bool {
+				found := false
+				ast.Inspect(e, func(n ast.Node) bool {
+					if c, ok := n.(*ast.CallExpr); ok {
+						if fn := callee(info, c); fn != nil && fn.Name() == "String" {
+							if sig := fn.Type().(*types.Signature); sig.Recv() != nil && namedName(sig.Recv().Type()) == "Path" {
+								found = true
+							}
+						}
+					}
+					return true
+				})
+				return found
+			}
+			ast.Inspect(fd.Body, func(n ast.Node) bool {
+				ix, ok := n.(*ast.IndexExpr)
+				if !ok {
+					return true
+				}
+				if _, isMap := info.TypeOf(ix.X).Underlying().(*types.Map); !isMap || !strings.HasPrefix(exprString(ix.X), "generator.") {
+					return true
+				}
+				sites++
+				key := ix.Index
+				if id, ok := ast.Unparen(key).(*ast.Ident); ok {
+					if d, ok := defs[objOf(info, id)]; ok {
+						key = d
+					}
+				}
+				bodyJoined := false
+				if c, ok := ast.Unparen(key).(*ast.CallExpr); ok {
+					if fn := callee(info, c); fn != nil && fn.Pkg() == p.Types {
+						if gd, _ := ctx.DeclOf(fn); gd != nil && gd.Body != nil {
+							ast.Inspect(gd.Body, func(q ast.Node) bool {
+								if e, ok := q.(ast.Expr); ok && joined(e) {
+									bodyJoined = true
+								}
+								return !bodyJoined
+							})
+						}
+					}
+				}
+				if joined(key) || bodyJoined {
+					bad++
+					if !first.IsValid() {
+						first = ix.Pos()
+					}
+				}
+				return true
+			})
+		}
+	}
+	r.Count("per-path sets of the converter generator (index sites)", sites)
+	r.Floor("per-path sets of the converter generator (index sites)", 5)
+	r.Check(bad == 0, "skeleton/path-keys-unambiguous", "languages.ConverterGenerator keys its per-path sets", first, "by the elements of the path, not by Path.String()",
+		fmt.Sprintf("%d index site(s) of the converter generator's per-path sets are keyed by Path.String(), which joins identifiers with a dot: with `Outer: {\"a.b\": string, a: A}` and struct_fields_as_options on Outer.a, the field `a.b` and the field b of a share a key — the second option is left out as already generated and {\"a.b\":\"flat\",\"a\":{\"b\":\"nested\"}} is rebuilt without a.b", bad))
+}
+
+// c14EighthRound — sixth hunt of C14 (two findings):
+//   - guardForAssignments adds an `== constant` guard for every constant an option assigns, also when the option carries
+//     an argument as well: the option is then suppressed whenever the value differs from the constant, and its argument
+//     is lost (the path is marked as generated). Guards on constants are for options made of constants only;
+//   - prepare_arg (Go converter template) dereferences a nullable value handed to a builder's converter
+//     (`InnerConverter(*arg1)`) without a nil test: a null element of `[...(Inner | null)]` panics.
+func c14EighthRound(ctx *Ctx, r *Report) {
+	n := 0
+	if fn := ctx.LookupMethod("internal/languages", "ConverterGenerator", "guardForAssignments"); fn == nil {
+		r.Undecided("anchor lost: languages.ConverterGenerator.guardForAssignments")
+	} else if fd, _ := ctx.DeclOf(fn); fd != nil {
+		constantGuard, looksAtArguments := false, false
+		ast.Inspect(fd.Body, func(m ast.Node) bool {
+			switch x := m.(type) {
+			case *ast.IfStmt:
+				if strings.Contains(exprString(x.Cond), ".Value.Constant != nil") {
+					constantGuard = true
+				}
+			case *ast.SelectorExpr:
+				if x.Sel.Name == "Argument" {
+					looksAtArguments = true
+				}
+			}
+			return true
+		})
+		if !constantGuard {
+			r.Undecided("anchor changed: guardForAssignments has no guard for constants")
+		}
+		n++
+		r.Check(looksAtArguments, "flow/constant-guards-only-for-constant-options", "languages.guardForAssignments guards an option on the constants it assigns", fd.Pos(), "only when the option carries no argument",
+			"an `== constant` guard is added for every constant assignment, also next to an argument: with add_assignment on Outer.name setting title = \"fixed\", the value {\"name\":\"a\",\"title\":\"b\"} is converted to NewOuterBuilder().Title(\"b\") — `if input.Name != \"\" && input.Title == \"fixed\"` suppresses Name(\"a\"), the path is marked as generated, and name is lost")
+	}
+	if ts, err := loadTemplates(ctx, "golang"); err != nil {
+		r.Undecided("cannot parse golang templates: %v", err)
+	} else if tree := ts.trees["prepare_arg"]; tree == nil {
+		r.Undecided("anchor lost: template prepare_arg")
+	} else {
+		derefs, guarded := 0, 0
+		walkTmpl(tree.Root, func(m parse.Node) bool {
+			w, ok := m.(*parse.WithNode)
+			if !ok || w.Pipe == nil || !strings.Contains(w.Pipe.String(), ".Arg.Builder") {
+				return true
+			}
+			full := tmplTextFull(w.List)
+			dereferences := false
+			walkTmpl(w.List, func(q parse.Node) bool {
+				if in, ok := q.(*parse.IfNode); ok && in.Pipe != nil && strings.Contains(in.Pipe.String(), "Nullable") && strings.Contains(tmplTextFull(in.List), "*") {
+					dereferences = true
+				}
+				return true
+			})
+			if dereferences {
+				derefs++
+				if strings.Contains(full, "!= nil") {
+					guarded++
+				}
+			}
+			return true
+		})
+		if derefs == 0 {
+			r.Undecided("anchor changed: prepare_arg no longer dereferences a nullable value for a builder")
+		}
+		n++
+		r.Check(derefs > 0 && guarded == derefs, "skeleton/go-converter-nullable-builder-elements", "prepare_arg hands a nullable value to the converter of its builder", token.NoPos, "after a nil test",
+			"the Builder and BuilderDisjunction branches of prepare_arg write `InnerConverter(*arg1)` for a nullable value without testing it: `Outer: {list: [...(Inner | null)]}` with {\"list\":[{\"a\":\"x\"},null]} makes OuterConverter panic with a nil pointer dereference")
+	}
+	r.Count("hunted clauses of the converter rules (8th round)", n)
+	r.Floor("hunted clauses of the converter rules (8th round)", 2)
 }
